@@ -1,0 +1,41 @@
+//! Verification-only fault-injection hooks (compiled only under `--cfg rtcm_rs_verif`
+//! together with the `std` feature). Off by default: without the cfg flag this file
+//! is not part of the crate and `Assembler::put` is unchanged.
+//!
+//! The hook lets a test harness make the k-th `Assembler::put` call of the current
+//! thread return `RtcmError::BufferOverflow` *before* anything is written, i.e. it
+//! behaves exactly like the pre-existing overflow branch of `put`.
+use std::cell::Cell;
+
+thread_local! {
+    static PUT_COUNT: Cell<u64> = Cell::new(0);
+    static FAIL_AT: Cell<u64> = Cell::new(0);
+}
+
+/// Resets the per-thread `put` counter and arms a failure at the `k`-th `put`
+/// (1-based). `k == 0` only counts and never fails.
+pub fn arm_put_failure(k: u64) {
+    PUT_COUNT.with(|c| c.set(0));
+    FAIL_AT.with(|c| c.set(k));
+}
+
+/// Disarms the failure and returns the number of `put` calls seen since arming.
+pub fn disarm() -> u64 {
+    FAIL_AT.with(|c| c.set(0));
+    PUT_COUNT.with(|c| c.replace(0))
+}
+
+/// Returns whether a failure is currently armed on this thread.
+pub fn is_armed() -> bool {
+    FAIL_AT.with(|c| c.get()) != 0
+}
+
+#[inline]
+pub(crate) fn on_put() -> bool {
+    let n = PUT_COUNT.with(|c| {
+        let n = c.get() + 1;
+        c.set(n);
+        n
+    });
+    FAIL_AT.with(|c| c.get()) == n
+}
